@@ -4,6 +4,7 @@ import ast
 from .framework import rule, Ob, fmt_trace, values_in
 from .model import AnalysisError, walk_shallow, dotted
 from .values import V
+from . import sql as sqlmod
 
 REPAIR_EXT = {'os.remove', 'os.unlink', 'os.rmdir', 'os.removedirs', 'shutil.rmtree'}
 
@@ -216,6 +217,7 @@ def h4(ctx):
     f = ctx.method('Cache', 'check')
     have = {'integrity': False, 'rows-vs-files': False, 'files-vs-rows': False, 'count': False, 'size': False}
     in_txn = True
+    all_file_rows = True
     for p in ctx.paths(f, 'default')[:400]:
         for e in p.trace:
             if e.kind == 'SQL' and e.d['stmt'] is not None:
@@ -225,6 +227,10 @@ def h4(ctx):
                 if st.kind == 'select' and 'filename' in st.colnames and 'size' in st.colnames:
                     have['rows-vs-files'] = True
                     in_txn = in_txn and bool(e.txn)
+                    # the comparison covers every row that names a file: no filter, or exactly filename IS NOT NULL
+                    w = st.where
+                    if not (w is None or (w[0] == 'isnull' and w[2] and sqlmod.colname(w[1]) == 'filename')):
+                        all_file_rows = False
                 if st.kind == 'select' and any('COUNT' in c for c in st.colnames):
                     have['count'] = True
                     in_txn = in_txn and bool(e.txn)
@@ -283,6 +289,10 @@ def h4(ctx):
                   'known files and walked files are not both compared as os.path.join(root, relative name): string '
                   'slicing of the walked directory (or relative names) breaks when the cache directory was given with '
                   'a trailing separator, and every value file is reported unknown and removed', f.loc(), wit2))
+    obs.append(Ob('H4', 'Cache.check/every-file-row-compared', all_file_rows,
+                  'the rows compared with the files are selected by something other than `filename IS NOT NULL`: rows '
+                  'that name a file but fail the filter (e.g. a zero-length file with size 0) are treated as unknown '
+                  'files, reported on a healthy cache and deleted by check(fix=True)', f.loc()))
     obs.append(Ob('H4', 'Cache.check/one-transaction', in_txn, 'the comparisons of check() do not run inside one '
                   'transaction: concurrent writers make it report phantom inconsistencies (and fix them)', f.loc()))
     return obs
